@@ -456,6 +456,51 @@ fn part_b_profile(run: &mut Run, profile: &str, vals: [MV; 3]) {
           }
         }
     }
+    // ---- chained scopes: a list-valued macro as the range of another macro, every choice of the
+    //      two iteration variables and of one further name read in each body (the two scopes are
+    //      siblings: a name in the first body never refers to the second macro's variable)
+    if arith {
+        run.sub(&format!("chained-scopes-{}", profile));
+        let range = E::Lit(MV::List(vec![MV::Int(10), MV::Int(20), MV::Int(30)]));
+        for f1 in ["map", "filter"] {
+            for v1 in 0..3 {
+                for n1 in 0..3 {
+                    for f2 in FORMS.iter() {
+                        for v2 in 0..3 {
+                            for n2 in 0..3 {
+                                if !run.take() {
+                                    continue;
+                                }
+                                let body1 = E::Bin("+", b(nm(v1)), b(nm(n1)));
+                                let first = macro_of(f1, range.clone(), NAMES[v1], body1);
+                                let body2 = E::Bin("+", b(nm(v2)), b(nm(n2)));
+                                let second = macro_of(f2, first, NAMES[v2], body2);
+                                let e = E::List(vec![second, nm(0), nm(1), nm(2)]);
+                                let src = e.src();
+                                env.log.clear();
+                                let exp = eval(&e, &mut env);
+                                let got = subj::run_src(&src, &ctx);
+                                run.trans(2);
+                                let case = || json!({"src": src, "expected": format!("{:?}", exp), "got": got.show()});
+                                run.class(&format!("chained-{}:{}:{}:{}", profile, f2, exp_tag(&exp), got.tag()), case);
+                                if let Some(ok) = compare(&exp, &got) {
+                                    run.validated();
+                                    run.nontrivial();
+                                    if !ok {
+                                        run.fail(
+                                            &format!("C11|chained-{}|{}-{}|expect={}|got={}", profile, f1, f2, exp_tag(&exp), got.tag()),
+                                            format!("`{}` : lexical scoping gives {:?}, implementation gave {}", src, exp, got.show()),
+                                            case(),
+                                        );
+                                    }
+                                }
+                            }
+                        }
+                    }
+                }
+            }
+        }
+    }
     let _ = classify_err;
 }
 
